@@ -1353,6 +1353,15 @@ func (e *Exec) specCall(call *ast.CallExpr, c *Ctx) Term {
 			}
 			e.errorf("%s: second() needs a pure two-result method call", e.curPos)
 			return Term{"false", tBool}
+		case "fresh_since_entry":
+			// fresh_since_entry(o): o is not an object that existed when the function was called (whatever its kind)
+			v := e.eval(call.Args[0], c)
+			st0 := c.old
+			if st0 == nil {
+				st0 = c.st
+			}
+			al := e.get(st0, "$alloc", &Type{K: KGMap, Key: tInt, Elem: tBool})
+			return Term{fmt.Sprintf("(not (select %s %s))", al.S, v.S), tBool}
 		case "allocated_at_entry":
 			v := e.eval(call.Args[0], c)
 			st0 := c.old
